@@ -482,7 +482,7 @@ def main():
          "hooks": {"guard": "XERCES_VERIF_HOOKS",
                    "enable": "out-of-tree build: cmake -S /repo -B /verif/.work/build-hooks -DCMAKE_CXX_FLAGS='-O1 -g1 -fsanitize=address,undefined -DXERCES_VERIF_HOOKS' (tools/common.py build_lib)",
                    "baseline_off_cmd": "cmake --build /repo/_build && ctest --test-dir /repo/_build -j8 --timeout 900",
-                   "source_commits": [], "add_only": True},
+                   "source_commits": ["c739003"], "add_only": True},
          "engines": [{"name": "xv", "path": "tools/check.py", "serves_properties": sorted(CLAIMED),
                       "kind_free_text": "Lean 4 theorems (lean/XV/Props) over models tied to /repo by translator (tools/translate.py) and correspondence harnesses (harness/)"}],
          "checks": checks,
